@@ -35,16 +35,19 @@ OK, RETRY_CODES, FATAL_CODES = 0x80, [0x8d, 0x82], [0x84, 0x87, 0x81, 0x8e]
 class Echo(object):
     """Answers every SCP request with an OK reply identifying the request."""
 
-    def __init__(self):
+    def __init__(self, data_length=0):
         self.requests = []
+        self.data_length = data_length
 
     def handle(self, data, dest):
         self.requests.append(data)
         cmd, seq, arg1 = struct.unpack_from("<2HI", data, 10)
         hdr = bytes([0, 0, 0x07, data[3], data[5], data[4], data[8], data[9],
                      data[6], data[7]])
+        payload = bytes((arg1 + 3 * i) & 0xff
+                        for i in range(self.data_length))
         return [hdr + struct.pack("<2H3I", OK, seq, arg1, len(self.requests),
-                                  cmd)]
+                                  cmd) + payload]
 
 
 class Plan(object):
@@ -114,9 +117,17 @@ def strat_history(draw, tier):
                        "single": single})
         total += n
     plan = draw(st.lists(plan_entry(), max_size=min(3 * total + 2, 120)))
+    # the buffer size the machine advertises bounds the data of a reply;
+    # sizes just below a power of two minus the headers matter for the
+    # length handed to recv()
+    buf = draw(st.sampled_from([256, 256, 128, 24, 25, 40, 103, 104, 105,
+                                230, 231, 232, 233, 486, 487, 488, 489, 1000,
+                                1024]))
     return {"n_tries": draw(st.integers(1, 5)),
             "timeout": draw(st.sampled_from([0.5, 0.5, 0.1, 2.0])),
-            "bursts": bursts, "plan": plan}
+            "bursts": bursts, "plan": plan, "buffer": buf,
+            "reply_data": draw(st.sampled_from(["none", "short", "max",
+                                                "max"]))}
 
 
 def run_history(case, wrap=False):
@@ -125,7 +136,9 @@ def run_history(case, wrap=False):
     h = simnet.Harness()
     plan = Plan(case["plan"], case["timeout"])
     h.net.plan = plan
-    echo = Echo()
+    buf = case.get("buffer", 256)
+    echo = Echo({"none": 0, "short": min(5, buf), "max": buf}[
+        case.get("reply_data", "none")])
     h.net.attach("spinn", 17893, echo)
 
     # unified event log
@@ -165,12 +178,12 @@ def run_history(case, wrap=False):
             try:
                 with sut("send_scp_burst", (sc.SCPError, simnet.StepLimit)):
                     if burst["single"]:
-                        pkt = conn.send_scp(256, 1, 2, 3, 5, ids[0], 0, 0,
+                        pkt = conn.send_scp(buf, 1, 2, 3, 5, ids[0], 0, 0,
                                             b"", 3, burst["cmds"][0])
                         events.append(("callback", h.clock.now, ids[0],
                                        bytes(pkt.bytestring)))
                     else:
-                        conn.send_scp_burst(256, burst["window"], calls)
+                        conn.send_scp_burst(buf, burst["window"], calls)
                 outcomes.append(("completed", None))
             except sc.TimeoutError as e:
                 outcomes.append(("timeout", e))
@@ -193,6 +206,7 @@ def judge(case, events, outcomes):
     base = case["timeout"]
     sends = {}              # cid -> [(time, bytes)]
     answered = {}           # cid -> time an OK reply was received
+    reply_of = {}           # cid -> the datagram of that reply
     callbacks = {}          # cid -> count
     cur = None
     fatal_seen = False
@@ -241,6 +255,7 @@ def judge(case, events, outcomes):
                 if cid in outstanding:
                     outstanding.discard(cid)
                     answered[cid] = ev[1]
+                    reply_of[cid] = ev[2]
                 elif cid // 100000 != cur:
                     classes.add("stale-reply-in-later-burst")
                 else:
@@ -263,6 +278,13 @@ def judge(case, events, outcomes):
                     {"command": cid, "reply_for": rid, "rc": rc})
             require(cid in answered, "a callback runs before the reply to "
                     "its command was received", {"command": cid})
+            require(ev[3] == reply_of[cid], "a callback is not given the "
+                    "whole reply datagram of its command",
+                    {"command": cid, "buffer_size": case.get("buffer", 256),
+                     "datagram_length": len(reply_of[cid]),
+                     "given_length": len(ev[3])})
+            if len(reply_of[cid]) > 28:
+                classes.add("reply-with-data")
         elif kind == "end":
             outcome, exc = outcomes[ev[2]]
             cids = [ev[2] * 100000 + i
